@@ -334,6 +334,38 @@ def check_default_device(wd, sieve, stats):
                            'summary': f'flipjump.run without io_device, history {list(hist)}: printed {got} instead of {exp}'})
 
 
+def check_werror(wd, sieve, stats):
+    """a program that raises an assembler warning: with --werror every route refuses it, without it every route accepts it -
+    whatever the other options (-s, -w, -v) are."""
+    import flipjump
+    from flipjump.fjm.fjm_consts import FJMVersion
+    from fjv.asm import quiet
+    root = wd / 'werror'
+    root.mkdir()
+    src = root / 'warn.fj'
+    src.write_text('def m x, unused_parameter {\n  ;x\n}\nm 0, 0\n' + PROGRAMS['nostl'][0])
+    for we, s, w, v in itertools.product((False, True), (False, True), (64, 32), (None, 1)):
+        tag = f'{int(we)}{int(s)}{w}{v}'
+        opts = ['--no_stl', '-w', str(w)] + (['--werror'] if we else []) + (['-s'] if s else []) + (['-v', str(v)] if v is not None else [])
+        o1, o2, o3 = root / f'{tag}-1.fjm', root / f'{tag}-2.fjm', root / f'{tag}-3.fjm'
+        rc1, _, _ = cli([str(src)] + opts + ['-o', str(o1)])
+        rc2, _, _ = cli(['--asm', str(src)] + opts + ['-o', str(o2)])
+        stats['cli_runs'] += 2
+        stats['configs'] += 1
+        try:
+            with quiet():
+                flipjump.assemble([src], o3, memory_width=w, use_stl=False, fjm_version=FJMVersion(3 if v is None else v), warning_as_errors=we, print_time=False)
+            api_ok = True
+        except Exception:  # noqa
+            api_ok = False
+        got = {'one-step': rc1 == 0 and o1.exists(), 'two-step': rc2 == 0 and o2.exists(), 'api': api_ok and o3.exists()}
+        if set(got.values()) != {not we}:
+            sieve.add({'kind': 'warnings-as-errors is not honoured by every route', 'class': f'werror={we} silent={s}',
+                       'case': {'werror': we, 'silent': s, 'w': w, 'version': v, 'program': src.read_text()}, 'expected': 'refused by every route' if we else 'accepted by every route',
+                       'observed': {k: ('accepted' if x else 'refused') for k, x in got.items()},
+                       'summary': f'program with a warning, --werror={we} -s={s} w={w} v={v}: ' + str({k: ("accepted" if x else "refused") for k, x in got.items()})})
+
+
 def check_path_spellings(wd, sieve, stats):
     """the same source named in different ways (absolute, relative to the cwd, through `dir/..`, through a symlinked directory
     and `..` - where the lexical and the real parent differ - , through a symlinked file): the fj command and the API read the
@@ -408,10 +440,8 @@ def work(task):
     sieve = Sieve(PROP)
     stats = {'configs': 0, 'cli_runs': 0}
     wd = scratch()
-    if kind == 'defaults':
-        check_defaults(wd, sieve, stats)
-        check_default_device(wd, sieve, stats)
-        check_path_spellings(wd, sieve, stats)
+    if kind in ('defaults', 'default-device', 'paths', 'werror'):
+        {'defaults': check_defaults, 'default-device': check_default_device, 'paths': check_path_spellings, 'werror': check_werror}[kind](wd, sieve, stats)
         return stats, sieve.result(), None
     sample = None
     api_user_history(part, wd)
@@ -449,7 +479,7 @@ def main():
     if args.replay:
         return replay(args)
     run = Run(PROP, 'exploration', args)
-    tasks = [('defaults', args.tier, 0, 1)] + [('cfg', args.tier, p, 32) for p in range(32)]
+    tasks = [(k, args.tier, 0, 1) for k in ('defaults', 'default-device', 'paths', 'werror')] + [('cfg', args.tier, p, 32) for p in range(32)]
     total, samples = {}, []
     for stats, res, sample in pmap(work, tasks, args.jobs):
         for k, v in stats.items():
